@@ -552,6 +552,12 @@ func c08() {
 			run.Count("children_seeing_a_faked_kernel_release", 1)
 		}
 		kc.cc.Env = vlib.RuntimeKnobs[(i/3)%len(vlib.RuntimeKnobs)]
+		if i%5 == 1 {
+			// a garbage collection and a spray of same-sized allocations at the last hook before the system call:
+			// the kernel must still be handed the compiled program
+			kc.cc.GCSpray = 1 + (i/5)%3
+			run.Count("children_with_gc_and_allocation_spray_before_the_seccomp_call", 1)
+		}
 		kc.desc = fmt.Sprintf("case %d %s", i, kc.desc)
 		judgeEnforce(run, o, kc, st, "")
 		if i == 1 || i == 2 {
